@@ -248,6 +248,20 @@ def run(ctx: Ctx, tier: str) -> Result:
         res.ok("C02.SNAP", {"TracePointConfig": "id, location path/line, args, watches of this action"})
     else:
         res.fail(Finding("C02.SNAP", tpf.qname, tc[0], tpf.loc(tc[0]), "the snapshot's tracepoint description is not (id, location path, location line, args, watches) of the action that fired: %s" % tbn))
+    from .common import dataclass_rule
+    dataclass_rule(ctx, res, "C02.SNAP", [ES + ".EventSnapshot", ES + ".StackFrame", ES + ".Variable", ES + ".VariableId", ES + ".WatchResult",
+                                          "deep.api.tracepoint.tracepoint_config.TracePointConfig"])
+    # the line the snapshot names: the configured line, 0 for a tracepoint without one (method tracepoints carry -1)
+    lnf = p.cls("deep.api.tracepoint.tracepoint_config.TracePointConfig").lookup("line_no")
+    ltb = Table(ctx, lnf)
+    LN = "@self._line_no"
+    lrv = Vars(); lrv.num(LN, 0)
+
+    def lref(w):
+        v = w.num[LN]
+        neg = (v < 0) if isinstance(v, (int, float)) else getattr(v, "below", False)
+        return (lambda got: got[0] == "return" and got[1] in (0, "0")) if neg else (lambda got: got[0] == "return" and got[1] == LN)
+    table_rule(res, "C02.SNAP", ltb, lrv, lref, "tracepoint line: the configured line, 0 when it is negative")
     ew = p.func("deep.processor.context.action_context.ActionContext.eval_watch")
     W = P(ew, 1)
     good = [c for c in ctor_calls(ctx, ew, ES + ".WatchResult") if len(c.args) == 3]
@@ -256,6 +270,35 @@ def run(ctx: Ctx, tier: str) -> Result:
         wb = bound(ctx, ES + ".WatchResult", good[0], ew)
         okw = wb.get("expression") == [W] and wb.get("source") == [P(ew, 2)] and len(wb.get("result", [])) == 1 and \
             ("process_variable(%s, @self.trigger_context.try_evaluate_expression(%s)[1])[0]" % (W, W)) in wb["result"][0]
+    # every watch result, also the error ones, names its source and its expression in the right places
+    wr_init = p.cls(ES + ".WatchResult").lookup("__init__")
+    acx = p.cls("deep.processor.context.action_context.ActionContext")
+    for mname, src_ok, expr_ok in (("eval_watch", lambda x: x == [P(ew, 2)], lambda x: x == [W]),
+                                   ("process_capture_variable", lambda x: len(x) == 1 and "CAPTURE" in x[0].upper(), None)):
+        mf = acx.lookup(mname)
+        if mf is None:
+            continue
+        for c_ in ctor_calls(ctx, mf, ES + ".WatchResult"):
+            b_ = {k: ctx.expand.expand(v, mf) for k, v in t.bind_args(wr_init, c_).items()}
+            e_ok = expr_ok(b_.get("expression", [])) if expr_ok else b_.get("expression") == [P(mf, 1)]
+            if src_ok(b_.get("source", [])) and e_ok:
+                res.ok("C02.SNAP", {"WatchResult in %s" % mname: mf.loc(c_)})
+            else:
+                res.fail(Finding("C02.SNAP", mf.qname, c_, mf.loc(c_), "a watch result is built with source %s and expression %s: source and expression are not in their places" % (
+                    b_.get("source"), b_.get("expression"))))
+    # every configured watch is evaluated
+    spa = p.func("deep.processor.context.snapshot_action.SnapshotActionContext._process_action")
+    wcalls = [c_ for c_ in t.calls_in(spa) if ew in t.resolve_call(c_, spa).repo]
+    okall = False
+    if len(wcalls) == 1:
+        lps_ = [l for l in paths.enclosing_loops(p, wcalls[0], spa) if isinstance(l, ast.For)]
+        okall = len(lps_) == 1 and ctx.expand.expand(lps_[0].iter, spa) and all(x.endswith("watches") or x.endswith(".get('watches', [])") for x in ctx.expand.expand(lps_[0].iter, spa)) \
+            and not paths.conditions(p, wcalls[0], spa) and norm(wcalls[0].args[0]) == norm(lps_[0].target) \
+            and not [n for n in ast.walk(lps_[0]) if isinstance(n, (ast.Break, ast.Continue))]
+    if okall:
+        res.ok("C02.SNAP", {"every configured watch evaluated": spa.loc(wcalls[0])})
+    else:
+        res.fail(Finding("C02.SNAP", spa.qname, wcalls[0] if wcalls else "<for watch in self.watches: eval_watch(watch, ...)>", spa.loc(), "not every configured watch is evaluated (once) for the snapshot"))
     if okw:
         res.ok("C02.SNAP", {"WatchResult": "expression text and the value of that same evaluation"})
     else:
